@@ -204,7 +204,7 @@ def sliding_window_view(arr, window_shape, step, dilation=None):
     step = np.array(step)  # (Sx, ..., Sz)
     window_shape = np.array(window_shape)  # (Wx, ..., Wz)
     in_shape = np.array(arr.shape[-len(step) :])  # (x, ... , z)
-    nbyte = arr.strides[-1]  # size, in bytes, of element in `arr`
+    nbyte = arr.itemsize  # size, in bytes, of element in `arr`
 
     # per-byte strides required to fill a window
     win_stride = tuple(np.cumprod(arr.shape[:0:-1])[::-1]) + (1,)
